@@ -394,4 +394,257 @@ theorem source_roundtrip_packed_int64 (fuel : Nat) (hf : 11 ≤ fuel) (p : Bytes
   omega
 
 
+theorem map_toNat_inj32 : ∀ (a b : List (BitVec 32)), a.map (·.toNat) = b.map (·.toNat) → a = b
+  | [], [], _ => rfl
+  | [], _ :: _, h => by simp at h
+  | _ :: _, [], h => by simp at h
+  | x :: a, y :: b, h => by
+    simp only [List.map_cons, List.cons.injEq] at h
+    rw [BitVec.eq_of_toNat_eq h.1, map_toNat_inj32 a b h.2]
+
+/-- **C01 for the source, packed repeated uint32 fields**: the bytes the source's `EncodePackedUInt32(tag, vs)` writes for a
+    non-empty list are read back by the source's `DecodeTag` + `DecodePackedUint32` as the same field number, wire type 2 and
+    the same list, consuming exactly what was written — any list length, any element values, any buffer and cursor. -/
+theorem source_roundtrip_packed_uint32 (fuel : Nat) (hf : 11 ≤ fuel) (p : Bytes) (off tag mode ks ke : BitVec 64) (vs : List (BitVec 32))
+    (hp : p.length < 2 ^ 62) (hfl : p.length + 2 ≤ fuel) (hoff : off.toNat ≤ p.length) (hvs : vs ≠ []) (hvl : vs.length < 2 ^ 59)
+    (ht1 : 1 ≤ tag.toNat) (ht : tag.toNat ≤ 536870911)
+    (se : Encoder_EncodePackedUInt32.St) (hret : Encoder_EncodePackedUInt32 fuel p off tag vs = .ret () se) :
+    ∃ sd, Decoder_DecodeTag fuel se.e_p off mode ks ke = .ret (tag, 2#64, .nil) sd ∧
+      ∃ sd2, Decoder_DecodePackedUint32 fuel sd.d_p sd.d_offset sd.d_mode sd.d_keyStart sd.d_keyEnd = .ret (vs, .nil) sd2 ∧
+        sd2.d_offset = se.e_offset := by
+  have htm : tag.toNat ≤ maxTagValue := ht
+  have hp63 : p.length < 2 ^ 63 := by omega
+  have hne : (vs.map (fun v => (BitVec.setWidth 64 v).toNat)).isEmpty = false := by
+    cases vs with
+    | nil => exact absurd rfl hvs
+    | cons _ _ => rfl
+  obtain ⟨hfit, hbuf, hend⟩ := enc_returns (W := Encoder_EncodePackedUInt32 fuel p off tag vs) p off.toNat (.packedVarint tag.toNat (vs.map (fun v => (BitVec.setWidth 64 v).toNat)))
+    (·.e_p) (·.e_offset) (by simp [Enc.step, hne, hvs]) (EncodePackedUInt32_refines fuel (by omega) p off tag vs hp hoff hvl) se hret
+  simp only [EncOp.wire, hne, Bool.false_eq_true, if_false] at hfit hbuf hend
+  rw [sumSizes_flatten sizeOfVarint encVarint sizeOfVarint_eq_length] at hfit hbuf hend
+  have hmapeq : vs.map (fun v => (BitVec.setWidth 64 v).toNat) = vs.map (·.toNat) := by
+    apply List.map_congr_left; intro v _; simp [BitVec.toNat_setWidth]; have := v.isLt; omega
+  rw [hmapeq] at hfit hbuf hend
+  generalize hF : ((vs.map (·.toNat)).map encVarint).flatten = F at *
+  simp only [List.length_append] at hfit hend
+  simp only [List.append_assoc] at hbuf
+  have hlenw : (writeAt p off.toNat (encTag tag.toNat wtLen ++ (encVarint F.length ++ F))).length = p.length :=
+    writeAt_length (by simp only [List.length_append]; omega)
+  -- DecodeTag
+  have hat0 := decOf_at p off ks ke false (encTag tag.toNat wtLen ++ (encVarint F.length ++ F)) (by simp only [List.length_append]; omega)
+  have hat : (decOf (writeAt p off.toNat (encTag tag.toNat wtLen ++ (encVarint F.length ++ F))) off ks ke false).At (p.take off.toNat)
+      (encTag tag.toNat wtLen ++ (encVarint F.length ++ (F ++ p.drop (off.toNat + (encTag tag.toNat wtLen ++ (encVarint F.length ++ F)).length)))) := by
+    simpa only [List.append_assoc] using hat0
+  have htag := Dec.tag_at hat ht1 htm (by decide : wtLen < 8)
+  obtain ⟨t, w, e, sd, hdt, hdp, hdm, hmatch⟩ := DecodeTag_refines fuel hf se.e_p off mode ks ke false
+    (by rw [hbuf, hlenw]; exact hp63) (by rw [hbuf, hlenw]; exact hoff)
+  simp only [hbuf] at hmatch hdt hdp
+  rw [htag] at hmatch
+  simp only [Dec.afterTag_off, Dec.afterTag_ks, Dec.afterTag_ke] at hmatch
+  obtain ⟨he, htn, hwn, hso, hsks, hske⟩ := hmatch
+  subst he
+  have htq : tag = t := (bv_eq_of_toNat htn).symm
+  have hwq : (2#64 : BitVec 64) = w := (bv_eq_of_toNat (by rw [hwn]; rfl)).symm
+  subst htq; subst hwq
+  refine ⟨sd, by rw [hbuf]; exact hdt, ?_⟩
+  -- DecodePackedUint32
+  have hat2 := hat.afterTag
+  have hd2 : decOf sd.d_p sd.d_offset sd.d_keyStart sd.d_keyEnd false =
+      (decOf (writeAt p off.toNat (encTag tag.toNat wtLen ++ (encVarint F.length ++ F))) off ks ke false).afterTag (encTag tag.toNat wtLen).length := by
+    simp only [decOf, Dec.afterTag, hdp, hso, hsks, hske]
+  have hmem : ∀ v ∈ vs.map (·.toNat), v < two32 := by
+    intro v hv; simp only [List.mem_map] at hv; obtain ⟨x, _, rfl⟩ := hv; unfold two32; exact x.isLt
+  obtain ⟨a, hpk⟩ := Dec.packed_at (d := decOf sd.d_p sd.d_offset sd.d_keyStart sd.d_keyEnd false) (pre := p.take off.toNat ++ encTag tag.toNat wtLen)
+    (post := p.drop (off.toNat + (encTag tag.toNat wtLen ++ (encVarint F.length ++ F)).length)) elUint32 encVarint .nats (vs.map (·.toNat)) none
+    (fun v hv rest => elUint32_enc v (hmem v hv) rest) (fun v _ => encVarint_length_pos v)
+    (by rw [hF]; unfold two64; omega) (by rw [hd2, hF]; simpa [List.append_assoc] using hat2)
+  obtain ⟨R, e2, sd2, hdu, _, _, _, _, hm2⟩ := DecodePackedUint32_refines fuel hf sd.d_p sd.d_offset sd.d_mode sd.d_keyStart sd.d_keyEnd false
+    (by rw [hdp, hlenw]; exact hp) (by rw [hdp, hlenw]; exact hfl) (by rw [hdp, hlenw, hso]; simp [decOf]; omega)
+  simp only [Dec.step, hpk] at hm2
+  obtain ⟨he2, hR, ho2⟩ := hm2
+  subst he2
+  have hRq : vs = R := (map_toNat_inj32 R vs hR).symm
+  subst hRq
+  refine ⟨sd2, hdu, bv_eq_of_toNat ?_⟩
+  rw [ho2, hend, hF]
+  simp [decOf, hso]
+  omega
+
+
+/-- **C01 for the source, packed repeated sint32 fields (zig-zag)**: the bytes the source's `EncodePackedSInt32(tag, vs)` writes for a
+    non-empty list are read back by the source's `DecodeTag` + `DecodePackedSint32` as the same field number, wire type 2 and
+    the same list of int32 values (negative ones included), consuming exactly what was written. -/
+theorem source_roundtrip_packed_sint32 (fuel : Nat) (hf : 11 ≤ fuel) (p : Bytes) (off tag mode ks ke : BitVec 64) (vs : List (BitVec 32))
+    (hp : p.length < 2 ^ 62) (hfl : p.length + 2 ≤ fuel) (hoff : off.toNat ≤ p.length) (hvs : vs ≠ []) (hvl : vs.length < 2 ^ 59)
+    (ht1 : 1 ≤ tag.toNat) (ht : tag.toNat ≤ 536870911)
+    (se : Encoder_EncodePackedSInt32.St) (hret : Encoder_EncodePackedSInt32 fuel p off tag vs = .ret () se) :
+    ∃ sd, Decoder_DecodeTag fuel se.e_p off mode ks ke = .ret (tag, 2#64, .nil) sd ∧
+      ∃ sd2, Decoder_DecodePackedSint32 fuel sd.d_p sd.d_offset sd.d_mode sd.d_keyStart sd.d_keyEnd = .ret (vs, .nil) sd2 ∧
+        sd2.d_offset = se.e_offset := by
+  have htm : tag.toNat ≤ maxTagValue := ht
+  have hp63 : p.length < 2 ^ 63 := by omega
+  have hne : (vs.map (·.toInt)).isEmpty = false := by
+    cases vs with
+    | nil => exact absurd rfl hvs
+    | cons _ _ => rfl
+  obtain ⟨hfit, hbuf, hend⟩ := enc_returns (W := Encoder_EncodePackedSInt32 fuel p off tag vs) p off.toNat (.packedZigzag32 tag.toNat (vs.map (·.toInt)))
+    (·.e_p) (·.e_offset) (by simp [Enc.step, hne]) (EncodePackedSInt32_refines fuel (by omega) p off tag vs hp hoff hvl) se hret
+  simp only [EncOp.wire, hne, Bool.false_eq_true, if_false] at hfit hbuf hend
+  rw [sumSizes_flatten sizeOfZigZag encZigZag32 (fun i => (sizeOfZigZag_exact i).2)] at hfit hbuf hend
+  generalize hF : ((vs.map (·.toInt)).map encZigZag32).flatten = F at *
+  simp only [List.length_append] at hfit hend
+  simp only [List.append_assoc] at hbuf
+  have hlenw : (writeAt p off.toNat (encTag tag.toNat wtLen ++ (encVarint F.length ++ F))).length = p.length :=
+    writeAt_length (by simp only [List.length_append]; omega)
+  -- DecodeTag
+  have hat0 := decOf_at p off ks ke false (encTag tag.toNat wtLen ++ (encVarint F.length ++ F)) (by simp only [List.length_append]; omega)
+  have hat : (decOf (writeAt p off.toNat (encTag tag.toNat wtLen ++ (encVarint F.length ++ F))) off ks ke false).At (p.take off.toNat)
+      (encTag tag.toNat wtLen ++ (encVarint F.length ++ (F ++ p.drop (off.toNat + (encTag tag.toNat wtLen ++ (encVarint F.length ++ F)).length)))) := by
+    simpa only [List.append_assoc] using hat0
+  have htag := Dec.tag_at hat ht1 htm (by decide : wtLen < 8)
+  obtain ⟨t, w, e, sd, hdt, hdp, hdm, hmatch⟩ := DecodeTag_refines fuel hf se.e_p off mode ks ke false
+    (by rw [hbuf, hlenw]; exact hp63) (by rw [hbuf, hlenw]; exact hoff)
+  simp only [hbuf] at hmatch hdt hdp
+  rw [htag] at hmatch
+  simp only [Dec.afterTag_off, Dec.afterTag_ks, Dec.afterTag_ke] at hmatch
+  obtain ⟨he, htn, hwn, hso, hsks, hske⟩ := hmatch
+  subst he
+  have htq : tag = t := (bv_eq_of_toNat htn).symm
+  have hwq : (2#64 : BitVec 64) = w := (bv_eq_of_toNat (by rw [hwn]; rfl)).symm
+  subst htq; subst hwq
+  refine ⟨sd, by rw [hbuf]; exact hdt, ?_⟩
+  -- DecodePackedSint32
+  have hat2 := hat.afterTag
+  have hd2 : decOf sd.d_p sd.d_offset sd.d_keyStart sd.d_keyEnd false =
+      (decOf (writeAt p off.toNat (encTag tag.toNat wtLen ++ (encVarint F.length ++ F))) off ks ke false).afterTag (encTag tag.toNat wtLen).length := by
+    simp only [decOf, Dec.afterTag, hdp, hso, hsks, hske]
+  have hmem : ∀ i ∈ vs.map (·.toInt), InI32 i := by
+    intro i hi; simp only [List.mem_map] at hi; obtain ⟨x, _, rfl⟩ := hi; exact inI32_toInt x
+  obtain ⟨a, hpk⟩ := Dec.packed_at (d := decOf sd.d_p sd.d_offset sd.d_keyStart sd.d_keyEnd false) (pre := p.take off.toNat ++ encTag tag.toNat wtLen)
+    (post := p.drop (off.toNat + (encTag tag.toNat wtLen ++ (encVarint F.length ++ F)).length)) elSint32 encZigZag32 .ints (vs.map (·.toInt)) none
+    (fun i hi rest => elSint32_enc i (hmem i hi) rest) (fun i _ => by unfold encZigZag32; exact encVarint_length_pos _)
+    (by rw [hF]; unfold two64; omega) (by rw [hd2, hF]; simpa [List.append_assoc] using hat2)
+  obtain ⟨R, e2, sd2, hdu, _, _, _, _, hm2⟩ := DecodePackedSint32_refines fuel hf sd.d_p sd.d_offset sd.d_mode sd.d_keyStart sd.d_keyEnd false
+    (by rw [hdp, hlenw]; exact hp) (by rw [hdp, hlenw]; exact hfl) (by rw [hdp, hlenw, hso]; simp [decOf]; omega)
+  simp only [Dec.step, hpk] at hm2
+  obtain ⟨he2, hR, ho2⟩ := hm2
+  subst he2
+  have hRq : vs = R := (map_toInt_inj32 R vs hR).symm
+  subst hRq
+  refine ⟨sd2, hdu, bv_eq_of_toNat ?_⟩
+  rw [ho2, hend, hF]
+  simp [decOf, hso]
+  omega
+
+
+/-- **C01 for the source, int64 fields (negative values: ten bytes)**: bytes written by the source's `EncodeInt64` are read back by the source's
+    `DecodeTag` + `DecodeInt64` as the same field number, wire type 0 and value, consuming exactly what was written. -/
+theorem source_roundtrip_int64 (fuel : Nat) (hf : 11 ≤ fuel) (p : Bytes) (off tag mode ks ke : BitVec 64) (v : BitVec 64)
+    (hp : p.length < 2 ^ 63) (hoff : off.toNat ≤ p.length) (ht1 : 1 ≤ tag.toNat) (ht : tag.toNat ≤ 536870911)
+    (se : Encoder_EncodeInt64.St) (hret : Encoder_EncodeInt64 fuel p off tag v = .ret () se) :
+    ∃ sd, Decoder_DecodeTag fuel se.e_p off mode ks ke = .ret (tag, 0#64, .nil) sd ∧
+      sd.d_p = se.e_p ∧ sd.d_mode = mode ∧ sd.d_keyStart = off ∧
+      ∃ sd2, Decoder_DecodeInt64 fuel sd.d_p sd.d_offset sd.d_mode sd.d_keyStart sd.d_keyEnd = .ret (v, .nil) sd2 ∧
+        sd2.d_offset = se.e_offset := by
+  have htm : tag.toNat ≤ maxTagValue := ht
+  have hv64 : InI64 v.toInt := inI64_toInt v
+  have hvu : v.toNat = toU64 v.toInt := toNat_eq_toU64 v
+  -- the encoder call returned: the buffer is the model's
+  obtain ⟨hfit, hbuf, hend⟩ := enc_returns (W := Encoder_EncodeInt64 fuel p off tag v) p off.toNat (.varint tag.toNat v.toNat)
+    (·.e_p) (·.e_offset) rfl (EncodeInt64_refines fuel (by omega) p off tag v hp hoff) se hret
+  simp only [EncOp.wire, List.length_append] at hfit hbuf hend
+  rw [hvu] at hfit hbuf hend
+  have hlenw : (writeAt p off.toNat (encTag tag.toNat wtVarint ++ encVarint (toU64 v.toInt))).length = p.length :=
+    writeAt_length (by simp only [List.length_append]; omega)
+  -- DecodeTag
+  have hat := decOf_at p off ks ke false (encTag tag.toNat wtVarint ++ encVarint (toU64 v.toInt)) (by simp only [List.length_append]; omega)
+  rw [List.append_assoc] at hat
+  have htag := Dec.tag_at hat ht1 htm (by decide : wtVarint < 8)
+  obtain ⟨t, w, e, sd, hdt, hdp, hdm, hmatch⟩ := DecodeTag_refines fuel hf se.e_p off mode ks ke false
+    (by rw [hbuf, hlenw]; exact hp) (by rw [hbuf, hlenw]; exact hoff)
+  rw [hbuf] at hmatch hdt hdp
+  rw [htag] at hmatch
+  simp only [Dec.afterTag_off, Dec.afterTag_ks, Dec.afterTag_ke] at hmatch
+  obtain ⟨he, htn, hwn, hso, hsks, hske⟩ := hmatch
+  subst he
+  have htq : tag = t := (bv_eq_of_toNat htn).symm
+  have hwq : w = 0#64 := bv_eq_of_toNat (by rw [hwn]; rfl)
+  subst htq; subst hwq
+  have hks : sd.d_keyStart = off := bv_eq_of_toNat (by rw [hsks]; simp [decOf])
+  refine ⟨sd, by rw [hbuf]; exact hdt, by rw [hbuf]; exact hdp, hdm, hks, ?_⟩
+  -- DecodeInt64
+  have hat2 := hat.afterTag
+  have hd2 : decOf sd.d_p sd.d_offset sd.d_keyStart sd.d_keyEnd false =
+      (decOf (writeAt p off.toNat (encTag tag.toNat wtVarint ++ encVarint (toU64 v.toInt))) off ks ke false).afterTag (encTag tag.toNat wtVarint).length := by
+    simp only [decOf, Dec.afterTag, hdp, hso, hsks, hske]
+  have hsc := Dec.scalar_at (d := decOf sd.d_p sd.d_offset sd.d_keyStart sd.d_keyEnd false) (by rw [hd2]; exact hat2)
+    (encVarint_ne_nil _) elInt64 .int v.toInt (elInt64_enc v.toInt hv64 _)
+  obtain ⟨x, e2, sd2, hdu, _, _, _, _, hm2⟩ := DecodeInt64_refines fuel hf sd.d_p sd.d_offset sd.d_mode sd.d_keyStart sd.d_keyEnd false
+    (by rw [hdp, hlenw]; exact hp) (by rw [hdp, hlenw, hso]; simp [decOf]; omega)
+  simp only [Dec.step, withAlloc, hsc] at hm2
+  obtain ⟨he2, hx, ho2⟩ := hm2
+  subst he2
+  have hxq : v = x := (BitVec.eq_of_toInt_eq hx).symm
+  subst hxq
+  refine ⟨sd2, hdu, bv_eq_of_toNat ?_⟩
+  rw [ho2, hend]
+  simp [decOf, hso]
+  omega
+
+
+/-- **C01 for the source, int32 fields (negative values: sign-extended, ten bytes)**: bytes written by the source's `EncodeInt32` are read back by the source's
+    `DecodeTag` + `DecodeInt32` as the same field number, wire type 0 and value, consuming exactly what was written. -/
+theorem source_roundtrip_int32 (fuel : Nat) (hf : 11 ≤ fuel) (p : Bytes) (off tag mode ks ke : BitVec 64) (v : BitVec 32)
+    (hp : p.length < 2 ^ 63) (hoff : off.toNat ≤ p.length) (ht1 : 1 ≤ tag.toNat) (ht : tag.toNat ≤ 536870911)
+    (se : Encoder_EncodeInt32.St) (hret : Encoder_EncodeInt32 fuel p off tag v = .ret () se) :
+    ∃ sd, Decoder_DecodeTag fuel se.e_p off mode ks ke = .ret (tag, 0#64, .nil) sd ∧
+      sd.d_p = se.e_p ∧ sd.d_mode = mode ∧ sd.d_keyStart = off ∧
+      ∃ sd2, Decoder_DecodeInt32 fuel sd.d_p sd.d_offset sd.d_mode sd.d_keyStart sd.d_keyEnd = .ret (v, .nil) sd2 ∧
+        sd2.d_offset = se.e_offset := by
+  have htm : tag.toNat ≤ maxTagValue := ht
+  have hv64 : InI32 v.toInt := inI32_toInt v
+  have hvu : (BitVec.signExtend 64 v).toNat = toU64 v.toInt := signExt_toU64 v
+  -- the encoder call returned: the buffer is the model's
+  obtain ⟨hfit, hbuf, hend⟩ := enc_returns (W := Encoder_EncodeInt32 fuel p off tag v) p off.toNat (.varint tag.toNat (BitVec.signExtend 64 v).toNat)
+    (·.e_p) (·.e_offset) rfl (EncodeInt32_refines fuel (by omega) p off tag v hp hoff) se hret
+  simp only [EncOp.wire, List.length_append] at hfit hbuf hend
+  rw [hvu] at hfit hbuf hend
+  have hlenw : (writeAt p off.toNat (encTag tag.toNat wtVarint ++ encVarint (toU64 v.toInt))).length = p.length :=
+    writeAt_length (by simp only [List.length_append]; omega)
+  -- DecodeTag
+  have hat := decOf_at p off ks ke false (encTag tag.toNat wtVarint ++ encVarint (toU64 v.toInt)) (by simp only [List.length_append]; omega)
+  rw [List.append_assoc] at hat
+  have htag := Dec.tag_at hat ht1 htm (by decide : wtVarint < 8)
+  obtain ⟨t, w, e, sd, hdt, hdp, hdm, hmatch⟩ := DecodeTag_refines fuel hf se.e_p off mode ks ke false
+    (by rw [hbuf, hlenw]; exact hp) (by rw [hbuf, hlenw]; exact hoff)
+  rw [hbuf] at hmatch hdt hdp
+  rw [htag] at hmatch
+  simp only [Dec.afterTag_off, Dec.afterTag_ks, Dec.afterTag_ke] at hmatch
+  obtain ⟨he, htn, hwn, hso, hsks, hske⟩ := hmatch
+  subst he
+  have htq : tag = t := (bv_eq_of_toNat htn).symm
+  have hwq : w = 0#64 := bv_eq_of_toNat (by rw [hwn]; rfl)
+  subst htq; subst hwq
+  have hks : sd.d_keyStart = off := bv_eq_of_toNat (by rw [hsks]; simp [decOf])
+  refine ⟨sd, by rw [hbuf]; exact hdt, by rw [hbuf]; exact hdp, hdm, hks, ?_⟩
+  -- DecodeInt32
+  have hat2 := hat.afterTag
+  have hd2 : decOf sd.d_p sd.d_offset sd.d_keyStart sd.d_keyEnd false =
+      (decOf (writeAt p off.toNat (encTag tag.toNat wtVarint ++ encVarint (toU64 v.toInt))) off ks ke false).afterTag (encTag tag.toNat wtVarint).length := by
+    simp only [decOf, Dec.afterTag, hdp, hso, hsks, hske]
+  have hsc := Dec.scalar_at (d := decOf sd.d_p sd.d_offset sd.d_keyStart sd.d_keyEnd false) (by rw [hd2]; exact hat2)
+    (encVarint_ne_nil _) elInt32 .int v.toInt (elInt32_enc v.toInt hv64 _)
+  obtain ⟨x, e2, sd2, hdu, _, _, _, _, hm2⟩ := DecodeInt32_refines fuel hf sd.d_p sd.d_offset sd.d_mode sd.d_keyStart sd.d_keyEnd false
+    (by rw [hdp, hlenw]; exact hp) (by rw [hdp, hlenw, hso]; simp [decOf]; omega)
+  simp only [Dec.step, withAlloc, hsc] at hm2
+  obtain ⟨he2, hx, ho2⟩ := hm2
+  subst he2
+  have hxq : v = x := (BitVec.eq_of_toInt_eq hx).symm
+  subst hxq
+  refine ⟨sd2, hdu, bv_eq_of_toNat ?_⟩
+  rw [ho2, hend]
+  simp [decOf, hso]
+  omega
+
+
 end Csproto.C01.Source
